@@ -62,6 +62,12 @@ WAVE-6 ADDITIONS (helpers / tables / defaults next to the above)
         table_is_the_documented_type_table; executed infer_object_encoding.table[21 element kinds], make_metadata.refuses_uninferable_object_column[..]
         refusal chain (all before the target is touched): find_type.object_encoding_is_inferred_from_the_column_itself, find_type.refusal_of_infer_object_
         encoding_propagates, make_metadata[..].refusal_of_find_type_propagates, write.metadata_is_built_before_the_target_is_touched (+ [a refusal leaves it untouched])
+WAVE-7 ADDITIONS (executed label enumeration)
+  find_type.refuses_unsupported_dtype[D|object_encoding] / make_metadata.refuses_unsupported_dtype[..]   (C18, C01, C17, C02)   D in period, interval, complex,
+        longdouble, void, Sparse, categoricals of intervals / periods x the 11 object_encoding options (None + 10) x times int64 | int96 (make_metadata: option
+        given as one text / per column): the dtype is refused by find_type, hence by make_metadata, hence before the target is touched (refusal chain above)
+  empty.view_shape_is_size[kind|size=n] / empty.view_aliases_frame[..]   (C06, C17, C01)   dataframe.empty for 14 column kinds + 6 index kinds x sizes 0, 1, 2, 3:
+        every fill view is one-dimensional with exactly `size` slots (nullable: values / mask pair) and what is written through it is what the frame shows
 Every family runs on its own (guard): a source shape the script does not model makes THAT family `<family>.out_of_reach` (unknown), never a
 violation and never silence for the others.  Refutations on the unchanged tree = recorded findings (contracts/findings.jsonl, ids <prop>-P-...;
 regions in _KNOWN below; each replayed natively by replay(): NATIVE_* snippets run the real functions in a fresh interpreter).
@@ -266,7 +272,8 @@ def compare_dtype(pd, np, want, got):
     return None
 
 
-TABLE_PARTS = {"writer": ("spec", "gcm_names", "infer"), "both": ("spec", "gcm_names", "infer", "compose", "override", "names", "prealloc")}
+TABLE_PARTS = {"writer": ("spec", "gcm_names", "infer", "refuse"),
+               "both": ("spec", "gcm_names", "infer", "refuse", "compose", "override", "names", "prealloc", "empty")}
 
 
 def run_tables(ctx, side, parts=None):
@@ -449,7 +456,7 @@ def _run_tables(ctx, side, parts):
         res.add(f"get_column_metadata.name[{label}]", PROVED if ok else REFUTED, None if ok else {"name": repr(name), "got": repr(got)},
                 time.time() - t0, EXEC, "a text name is kept verbatim (name == field_name), a tuple becomes its text, anything else raises TypeError")
         n_posed += 1
-    for part, rows_fn in (("names", names_rows), ("prealloc", prealloc_rows), ("infer", infer_rows)):
+    for part, rows_fn in (("names", names_rows), ("prealloc", prealloc_rows), ("infer", infer_rows), ("refuse", refusal_rows), ("empty", empty_rows)):
         if part in parts:
             for r in rows_fn(fp, pd, np):
                 res.add(*r)
@@ -3769,6 +3776,176 @@ def infer_rows(fp, pd, np):
     return out
 
 
+
+# ---- executed: refusal table of find_type / make_metadata; views of dataframe.empty over sizes ---------------------------------------------
+OBJECT_ENCODINGS = (None, "infer", "utf8", "bytes", "json", "bson", "bool", "int", "int32", "float", "decimal")
+
+
+def unsupported_rows(pd, np):
+    rows = [("period[D]", lambda: pd.Series(pd.period_range("2020-01-01", periods=2, freq="D"))),
+            ("period[M]", lambda: pd.Series(pd.period_range("2020-01", periods=2, freq="M"))),
+            ("interval[int64]", lambda: pd.Series(pd.interval_range(0, 2))),
+            ("interval[datetime64]", lambda: pd.Series(pd.interval_range(pd.Timestamp("2020-01-01"), periods=2))),
+            ("complex64", lambda: pd.Series(np.array([1j, 2j], dtype="complex64"))),
+            ("complex128", lambda: pd.Series(np.array([1j, 2j], dtype="complex128"))),
+            ("longdouble", lambda: pd.Series(np.array([1, 2], dtype="longdouble"))),
+            ("void (V4)", lambda: pd.Series(np.array([b"abcd", b"efgh"], dtype="V4"))),
+            ("Sparse[int64]", lambda: pd.Series(pd.arrays.SparseArray([0, 1]))),
+            ("Sparse[float64]", lambda: pd.Series(pd.arrays.SparseArray([0.0, 1.5]))),
+            ("category of intervals", lambda: pd.Series(pd.Categorical(pd.interval_range(0, 2)))),
+            ("category of periods", lambda: pd.Series(pd.Categorical(pd.period_range("2020-01-01", periods=2, freq="D"))))]
+    out = []
+    for name, mk in rows:
+        try:
+            ser = mk()
+        except Exception:
+            continue                      # this pandas / numpy cannot build the dtype: nothing to refuse
+        if name == "longdouble" and ser.dtype == np.float64:
+            continue
+        out.append((name, ser.rename("x")))
+    return out
+
+
+def refusal_rows(fp, pd, np):
+    """find_type.refuses_unsupported_dtype[D|object_encoding] / make_metadata.refuses_unsupported_dtype[..]: a dtype outside the supported table is
+    refused whatever object_encoding / times say - by find_type, hence by make_metadata, hence before write() touches the target"""
+    from fastparquet import writer
+    out = []
+    for D, ser in unsupported_rows(pd, np):
+        is_cat = isinstance(ser.dtype, pd.CategoricalDtype)
+        for oe in OBJECT_ENCODINGS:
+            t0 = time.time()
+            got = {}
+            for times in ("int64", "int96"):
+                try:
+                    se, _ = writer.find_type(ser.cat.categories if is_cat else ser, object_encoding=oe, times=times)
+                    got[times] = f"accepted as type {se.type} / converted {se.converted_type}"
+                except Exception as ex:
+                    got[times] = type(ex)
+            ok = all(isinstance(v, type) for v in got.values())
+            kinds = sorted({v.__name__ for v in got.values() if isinstance(v, type)})
+            out.append((f"find_type.refuses_unsupported_dtype[{D}|{oe}]", PROVED if ok else REFUTED,
+                        None if ok else {"dtype": str(ser.dtype), "object_encoding": oe, "got": {k: str(v) for k, v in got.items()}}, time.time() - t0, EXEC,
+                        f"find_type(column of {ser.dtype}{' (its categories)' if is_cat else ''}, object_encoding={oe!r}, times=int64|int96) raises ({', '.join(kinds) or '-'}): "
+                        "the dtype is outside the supported table and no option makes it writable" + ("" if ok else f" - {got}")))
+            t0 = time.time()
+            res2 = {}
+            for label, kw in (("one text", {"object_encoding": oe}), ("per column", {"object_encoding": {"x": oe}})):
+                if oe is None and label == "one text":
+                    kw = {}
+                try:
+                    writer.make_metadata(pd.DataFrame({"k": [1, 2], "x": ser}), index_cols=[], **kw)
+                    res2[label] = "returned"
+                except Exception as ex:
+                    res2[label] = type(ex)
+            ok = all(isinstance(v, type) for v in res2.values())
+            out.append((f"make_metadata.refuses_unsupported_dtype[{D}|{oe}]", PROVED if ok else REFUTED,
+                        None if ok else {"dtype": str(ser.dtype), "object_encoding": oe, "got": {k: str(v) for k, v in res2.items()}}, time.time() - t0, EXEC,
+                        f"make_metadata(frame with a {ser.dtype} column, object_encoding={oe!r} as one text / per column) raises: write() builds the metadata "
+                        "before write_simple / write_multi open the target (write.metadata_is_built_before_the_target_is_touched), so the refusal leaves an "
+                        "existing dataset as it was" + ("" if ok else f" - {res2}")))
+    return out
+
+
+def empty_rows(fp, pd, np):
+    """empty.view_shape_is_size[kind|size=n] / empty.view_aliases_frame[kind|size=n]: dataframe.empty(types, size, ...) for each column / index kind the
+    reader allocates x sizes 0..3: every fill view has exactly `size` slots along ONE axis and writing through it shows in the frame"""
+    from fastparquet import dataframe
+    col_kinds = [("int64", "int64", {}), ("float64", "float64", {}), ("bool", "bool", {}), ("text (object)", "O", {}), ("datetime64[us]", "M8[us]", {}),
+                 ("datetime64[ns]", "M8[ns]", {}), ("datetime64[us, Europe/Paris]", "M8[us]", {"timezones": {"x": "Europe/Paris"}}),
+                 ("datetime64[ns, UTC]", "M8[ns]", {"timezones": {"x": "UTC"}}), ("datetime64[us, +05:30]", "M8[us]", {"timezones": {"x": "+05:30"}}),
+                 ("timedelta64[us]", "m8[us]", {}), ("category", "category", {"cats": {"x": 3}}), ("Int32", pd.Int32Dtype(), {}),
+                 ("UInt8", pd.UInt8Dtype(), {}), ("boolean", pd.BooleanDtype(), {})]
+    idx_kinds = [("int64 index", ["int64"], ["i"], {}), ("datetime64[us] index", ["M8[us]"], ["i"], {}),
+                 ("datetime64[us, Europe/Paris] index", ["M8[us]"], ["i"], {"timezones": {"i": "Europe/Paris"}}),
+                 ("category index", ["category"], ["i"], {"cats": {"i": 3}}), ("text (object) index", ["O"], ["i"], {}),
+                 ("two-level index", ["int64", "O"], ["i", "j"], {})]
+
+    def sample(view_dtype, n, kind):
+        if kind == "O":
+            return np.array(["v%d" % k for k in range(n)], dtype=object)
+        if kind == "b":
+            return np.array([k % 2 == 0 for k in range(n)])
+        if kind in "Mm":
+            return (np.arange(n, dtype="int64") * 86400 * 10 ** 6 + 10 ** 15).astype("int64").view(view_dtype) if np.dtype(view_dtype).kind in "Mm" else None
+        return (np.arange(n) % 3).astype(view_dtype)
+
+    def check_view(view, n):
+        """-> (shape message or None, kind of raw array, raw array)"""
+        if hasattr(view, "_data") and hasattr(view, "_mask") and not isinstance(view, np.ndarray):
+            if view._data.shape != (n,) or view._mask.shape != (n,):
+                return f"masked pair of shapes {view._data.shape} / {view._mask.shape}", None
+            return None, view._data
+        if not isinstance(view, np.ndarray) and hasattr(view, "_ndarray"):          # DatetimeArray / TimedeltaArray row of a datetime-like block
+            if view.shape != (n,) or view._ndarray.shape != (n,):
+                return f"{type(view).__name__} of shape {view.shape}", None
+            return None, view._ndarray
+        if not isinstance(view, np.ndarray):
+            return f"view is a {type(view).__name__}", None
+        if view.shape != (n,):
+            return f"view of shape {view.shape}", None
+        return None, view
+
+    def frame_values(df, name, as_index, kind):
+        s = df.index.get_level_values(name) if as_index else df[name]
+        if isinstance(s.dtype, pd.CategoricalDtype):
+            return np.asarray(s.codes if as_index else s.cat.codes)
+        if isinstance(s.dtype, pd.DatetimeTZDtype):
+            s = s.tz_convert("UTC").tz_localize(None) if as_index else s.dt.tz_convert("UTC").dt.tz_localize(None)
+        if hasattr(s.dtype, "numpy_dtype") and not as_index:
+            return s.to_numpy(dtype=s.dtype.numpy_dtype, na_value=0)
+        return np.asarray(s)
+    cases = [(lab, [t], ["x"], None, None, kw, "x", False) for lab, t, kw in col_kinds] + \
+            [(lab, ["int64"], ["x"], its, ins, kw, ins[-1], True) for lab, its, ins, kw in idx_kinds]
+    out = []
+    for lab, types, cols, its, ins, kw, target, as_index in cases:
+        for n in (0, 1, 2, 3):
+            t0 = time.time()
+            tag = f"[{lab}|size={n}]"
+            why_shape = why_alias = None
+            try:
+                df, views = dataframe.empty(list(types), n, cols=list(cols), index_types=its, index_names=ins, **kw)
+                if len(df) != n:
+                    why_shape = f"frame of {len(df)} rows"
+                names = list(cols) + list(ins or [])
+                raws = {}
+                for nm in names:
+                    w, raw = check_view(views[nm], n)
+                    if w and not why_shape:
+                        why_shape = f"views[{nm!r}]: {w} instead of ({n},)"
+                    raws[nm] = raw
+                if not why_shape:
+                    raw = raws[target]
+                    two_level = as_index and len(ins) > 1
+                    vals = sample(raw.dtype, n, raw.dtype.kind)
+                    if two_level:
+                        for k_, nm in enumerate(ins):       # codes of a MultiIndex under construction: labels arrive through <name>-catdef
+                            views[nm][:] = (np.arange(n) % 2)
+                            views[nm + "-catdef"]._set_categories(pd.Index([10, 20]) if k_ == 0 else pd.Index(["p", "q"]))
+                        got = np.asarray(df.index.get_level_values(target))
+                        want = np.array(["p", "q"], dtype=object)[np.arange(n) % 2]
+                        if list(got) != list(want):
+                            why_alias = f"index level {target}: {list(got)} instead of {list(want)}"
+                    else:
+                        raw[:] = vals
+                        if hasattr(views[target], "_mask") and not isinstance(views[target], np.ndarray):
+                            views[target]._mask[:] = False
+                        got = frame_values(df, target, as_index, raw.dtype.kind)
+                        if len(got) != n or any(a != b for a, b in zip(np.asarray(got).view("int64") if raw.dtype.kind in "Mm" else got,
+                                                                       vals.view("int64") if raw.dtype.kind in "Mm" else vals)):
+                            why_alias = f"wrote {list(vals)[:3]} through views[{target!r}], the frame shows {list(got)[:3]}"
+            except Exception as ex:
+                why_shape = why_shape or f"raises {type(ex).__name__}: {str(ex)[:100]}"
+            out.append(("empty.view_shape_is_size" + tag, REFUTED if why_shape else PROVED, {"why": why_shape} if why_shape else None, time.time() - t0, EXEC,
+                        f"dataframe.empty(.., size={n}): the frame has {n} rows and every fill view (data column, index level) is one-dimensional with exactly "
+                        f"{n} slots (nullable dtypes: the values / mask pair)" + (f" - {why_shape}" if why_shape else "")))
+            if not why_shape:
+                out.append(("empty.view_aliases_frame" + tag, REFUTED if why_alias else PROVED, {"why": why_alias} if why_alias else None, 0.0, EXEC,
+                            "values written through the view are the values of the frame's column / index (the reader fills the frame ONLY through "
+                            "the views)" + (f" - {why_alias}" if why_alias else "")))
+    return out
+
+
 # =================================================================================================================================
 #  check
 # =================================================================================================================================
@@ -3848,10 +4025,11 @@ def check(ctx, timeout=10000, side="both", only=None, families=None, table_parts
 def props_of(name):
     if name.startswith("dtypes.null_scan."):
         return ("C17", "C01", "C07")
-    if name.startswith("pre_allocate."):
+    if name.startswith(("pre_allocate.", "empty.")):
         return ("C06", "C17", "C01")
     if name.startswith(("infer_object_encoding.", "make_metadata.refuses_uninferable", "find_type.object_encoding_is_inferred", "find_type.refusal_of",
-                        "write.metadata_is_built_before", "make_metadata.refusal_of")) or ".refusal_of_find_type_propagates" in name:
+                        "write.metadata_is_built_before", "make_metadata.refusal_of", "find_type.refuses_unsupported_dtype",
+                        "make_metadata.refuses_unsupported_dtype")) or ".refusal_of_find_type_propagates" in name:
         return ("C18", "C01", "C17", "C02")
     if name.startswith("get_column_metadata."):
         return ("C02",)
@@ -3870,7 +4048,7 @@ def function_of(name):
                     ("set_attrs.", "api.ParquetFile._set_attrs"), ("parse_header.", "api.ParquetFile._parse_header"),
                     ("pandas_metadata.", "api.ParquetFile.pandas_metadata"), ("has_pandas_metadata.", "api.ParquetFile.has_pandas_metadata"),
                     ("check_categories.", "api.ParquetFile.check_categories"), ("dtypes.", "api.ParquetFile._dtypes"), ("typemap.", "converted_types.typemap"),
-                    ("metadata.", "api.ParquetFile._dtypes")):
+                    ("empty.", "dataframe.empty"), ("metadata.", "api.ParquetFile._dtypes")):
         if name.startswith(pre):
             return fn
     return "?"
@@ -4036,15 +4214,46 @@ bad = []
 p = os.path.join(tempfile.mkdtemp(), "old.parq")
 write(p, pd.DataFrame({"x": ["a", "b"]}))
 before = hashlib.sha256(open(p, "rb").read()).hexdigest()
-for label, vals in (("tuples", [(1, 2), (3, 4)]), ("sets", [{1}, {2}]), ("complex", [1j, 2j]), ("text and int", ["a", 1])):
+cases = [(label, pd.DataFrame({"x": pd.Series(vals, dtype=object)}), {}) for label, vals in
+         (("tuples", [(1, 2), (3, 4)]), ("sets", [{1}, {2}]), ("complex", [1j, 2j]), ("text and int", ["a", 1]))]
+per = pd.DataFrame({"x": pd.period_range("2020-01-01", periods=2, freq="D")})
+itv = pd.DataFrame({"x": pd.interval_range(0, 2)})
+cases += [("period column", per, {}), ("period column, object_encoding=utf8", per, {"object_encoding": "utf8"}),
+          ("period column, object_encoding={x: json}", per, {"object_encoding": {"x": "json"}}), ("interval column, object_encoding=bytes", itv, {"object_encoding": "bytes"}),
+          ("complex128 column, object_encoding=float", pd.DataFrame({"x": np.array([1j, 2j])}), {"object_encoding": "float"})]
+for label, frame, kw in cases:
     try:
-        write(p, pd.DataFrame({"x": pd.Series(vals, dtype=object)}))
+        write(p, frame, **kw)
         bad.append(f"{label}: the write is accepted")
     except Exception as ex:
         after = hashlib.sha256(open(p, "rb").read()).hexdigest() if os.path.exists(p) else None
         if after != before:
             bad.append(f"{label}: refused with {type(ex).__name__} but the existing file was {'removed' if after is None else 'overwritten'} ({os.path.getsize(p) if after else 0} bytes left)")
             write(p, pd.DataFrame({"x": ["a", "b"]})); before = hashlib.sha256(open(p, "rb").read()).hexdigest()
+print("NATIVE", json.dumps(bad))
+'''
+
+NATIVE_ONEROW = r'''
+import json, os, tempfile, numpy as np, pandas as pd
+from fastparquet import write, ParquetFile
+bad = []
+p = os.path.join(tempfile.mkdtemp(), "t.parq")
+df = pd.DataFrame({"i": range(7), "t": pd.date_range("2020-01-01", periods=7, freq="D", tz="Europe/Paris"), "n": pd.date_range("2020-01-01", periods=7, freq="D"),
+                   "c": pd.Categorical(list("abcabca")), "m": pd.array([1, None, 3, 4, 5, 6, 7], dtype="Int32")})
+write(p, df, row_group_offsets=[0, 3, 4])
+pf = ParquetFile(p)
+for k, (a, b) in enumerate(((0, 3), (3, 4), (4, 7))):
+    try:
+        out = pf[k].to_pandas()
+        if len(out) != b - a or out["t"].tolist() != df["t"].iloc[a:b].tolist() or out["i"].tolist() != df["i"].iloc[a:b].tolist():
+            bad.append(f"row group {k} ({b - a} row(s)): read differs from rows {a}:{b} of the full frame")
+    except Exception as ex:
+        bad.append(f"row group {k} ({b - a} row(s)) with a tz-aware column: pf[{k}].to_pandas() raises {type(ex).__name__}: {str(ex)[:80]} (count() == {pf[k].count()})")
+try:
+    h = pf.head(1)
+    if len(h) != 1: bad.append("head(1)")
+except Exception as ex:
+    bad.append(f"head(1) raises {type(ex).__name__}: {str(ex)[:80]}")
 print("NATIVE", json.dumps(bad))
 '''
 
@@ -4160,10 +4369,15 @@ def _native(code, only=None, without=()):
 EXEC_ROW = re.compile(r"^(pre_allocate\.allocation_follows|infer_object_encoding\.table\[|make_metadata\.refuses_uninferable)")
 
 
-def replay(name, model=None):
-    """-> (confirmed on the real code: True / False / None = could not be run, text)"""
-    if name.startswith(("metadata.", "get_column_metadata.", "dtypes.override_is_honoured[")) or (EXEC_ROW.match(name) and False):
-        why = (model or {}).get("why") if isinstance(model, dict) else None
+def is_executed_row(name):
+    return name.startswith(("metadata.", "get_column_metadata.", "dtypes.override_is_honoured[", "empty.", "find_type.refuses_unsupported_dtype",
+                            "make_metadata.refuses_unsupported_dtype")) or EXEC_ROW.match(name) is not None
+
+
+def replay(name, model=None, cheap=False):
+    """-> (confirmed on the real code: True / False / None = could not be run, text); cheap: an executed table row is its own native run"""
+    if name.startswith(("metadata.", "get_column_metadata.", "dtypes.override_is_honoured[")) or (cheap and is_executed_row(name)):
+        why = ((model or {}).get("why") or (model or {}).get("got")) if isinstance(model, dict) else None
         return True, "executed on the real functions (the table row IS the native run): " + str(why)[:400]
     if "element_name_is_text" in name:
         c, t = _native(NATIVE_TUPLE)
@@ -4179,8 +4393,11 @@ def replay(name, model=None):
         return _native(NATIVE_APPEND)
     if name.startswith("pre_allocate."):
         return _native(NATIVE_SUBSET)
+    if name.startswith("empty."):
+        return _native(NATIVE_ONEROW)
     if name.startswith(("infer_object_encoding.", "make_metadata.refuses_uninferable", "find_type.object_encoding_is_inferred", "find_type.refusal_of",
-                        "write.metadata_is_built_before")) or "refusal_of_find_type" in name:
+                        "write.metadata_is_built_before", "find_type.refuses_unsupported_dtype", "make_metadata.refuses_unsupported_dtype")) \
+            or "refusal_of_find_type" in name:
         return _native(NATIVE_REFUSE)
     if name.startswith("write."):
         return _native(NATIVE_WRITE)
